@@ -1,7 +1,119 @@
-import Atomman.Prelude
-open Atomman
+import Atomman.C17
+open Atomman Atomman.C17
 
-/-- stub: replaced when the C17 model is built. -/
-def handleC17 (_toks : List String) : String := err "op"
+/-! line-protocol driver for C17 (see harness/props/c17.py for the op grammar). -/
+
+abbrev P := StateT (List String) Option
+
+def tok : P String := do
+  match (← get) with
+  | [] => failure
+  | t :: r => set r; pure t
+
+def pNat : P Nat := do let t ← tok; match t.toNat? with | some n => pure n | none => failure
+def pRat : P Rat := do let t ← tok; match parseRat? t with | some n => pure n | none => failure
+def pBool : P Bool := do let t ← tok; match parseBool? t with | some n => pure n | none => failure
+
+def pMany {α : Type} (p : P α) : Nat → P (List α)
+  | 0 => pure []
+  | n + 1 => do let a ← p; let r ← pMany p n; pure (a :: r)
+
+def pV3 : P (V3 Rat) := do let x ← pRat; let y ← pRat; let z ← pRat; pure ⟨x, y, z⟩
+def pM3 : P (M3 Rat) := do let a ← pV3; let b ← pV3; let c ← pV3; pure ⟨a, b, c⟩
+def pCell : P (Cell Rat) := do
+  let px ← pBool; let py ← pBool; let pz ← pBool; let v ← pM3; pure ⟨v, px, py, pz⟩
+def pPos (n : Nat) : P (Array (V3 Rat)) := do let l ← pMany pV3 n; pure l.toArray
+def pNlist (n : Nat) : P (List (List Nat)) := pMany (do let c ← pNat; pMany pNat c) n
+/-- selection of atoms to evaluate: `k i1 .. ik`. -/
+def pSel (n : Nat) : P (List Nat) := do
+  let k ← pNat; let l ← pMany pNat k
+  if l.all (· < n) then pure l else failure
+def pEnd : P Unit := do match (← get) with | [] => pure () | _ => failure
+
+def fn (a : Array (V3 Rat)) : Nat → V3 Rat := fun i => a.getD i ⟨0, 0, 0⟩
+def fnM (a : Array (M3 Rat)) : Nat → M3 Rat := fun i => a.getD i ⟨⟨0,0,0⟩,⟨0,0,0⟩,⟨0,0,0⟩⟩
+
+def nlistOk (n : Nat) (nl : List (List Nat)) : Bool := nl.length == n && nl.all (·.all (· < n))
+
+def showV (v : V3 Rat) : String := showRats v.toList
+def showVs (l : List (V3 Rat)) : String := " ".intercalate (l.map showV)
+def showM (m : M3 Rat) : String := showRats m.toList
+
+def toF (r : Rat) : Float := Float.ofInt r.num / Float.ofNat r.den
+def ofF (f : Float) : Rat :=
+  if f.isNaN || f.isInf || f ≤ 0 then 0 else
+  let (m, e) := f.frExp
+  let n : Nat := (m * 9007199254740992.0).toUInt64.toNat
+  let e' : Int := e - 53
+  if e' ≥ 0 then ((n * 2 ^ e'.toNat : Nat) : Rat) else mkRat n (2 ^ (-e').toNat)
+
+/-- `sqrt` shim (float shim of DESIGN §0.3): the double nearest to the square root, as an exact rational. -/
+def ratSqrt (r : Rat) : Rat := if r ≤ 0 then 0 else ofF (Float.sqrt (toF r))
+
+def magR (v : V3 Rat) : Rat := ratSqrt (V3.normSq v)
+
+def big : Rat := 10000000000000000
+
+def run (p : P String) (toks : List String) : String :=
+  match p.run toks with
+  | some (s, _) => s
+  | none => err "format"
+
+def handleC17 (toks : List String) : String :=
+  match toks with
+  | "disp" :: rest => run (do
+      let c ← pCell; let n ← pNat; let p0 ← pPos n; let p1 ← pPos n; pEnd
+      pure (showVs ((List.range n).map (displacement c (fn p0) (fn p1))))) rest
+  | "slip" :: rest => run (do
+      let c ← pCell; let n ← pNat; let p0 ← pPos n; let p1 ← pPos n; let nl ← pNlist n; let sel ← pSel n; pEnd
+      if !nlistOk n nl then pure (err "value") else
+      pure (showVs (sel.map fun i => slipVector c (fn p0) (fn p1) (nl.getD i []) i))) rest
+  | "dd" :: rest => run (do
+      let c0 ← pCell; let c1 ← pCell; let n ← pNat; let p0 ← pPos n; let p1 ← pPos n; let nl ← pNlist n; let sel ← pSel n; pEnd
+      if !nlistOk n nl then pure (err "value") else
+      pure (showVs (sel.flatMap fun i => (nl.getD i []).map fun j => ddvector c0 c1 (fn p0) (fn p1) i j))) rest
+  | "disreg" :: rest => run (do
+      let atol ← pRat; let rtol ← pRat; let midy ← pRat
+      let c ← pCell; let n ← pNat; let p0 ← pPos n; let p1 ← pPos n
+      let xs ← pMany pRat n; let ys ← pMany pRat n; pEnd
+      let d := (List.range n).map (displacement c (fn p0) (fn p1))
+      let atoms := xs.zip (ys.zip d)
+      match disregistry atol rtol atoms midy with
+      | none => pure (err "value")
+      | some r => pure (toString r.length ++ " " ++
+          " ".intercalate (r.map fun e => showRat e.1 ++ " " ++ showV e.2))) rest
+  | "strain" :: rest => run (do
+      let cosMax ← pRat
+      let c0 ← pCell; let c1 ← pCell; let n ← pNat; let p0 ← pPos n; let p1 ← pPos n
+      let nl0 ← pNlist n; let nl1 ← pNlist n; let sel ← pSel n; pEnd
+      if !(nlistOk n nl0 && nlistOk n nl1) then pure (err "value") else
+      let gs := sel.map fun i => strainG magR cosMax big c0 c1 (fn p0) (fn p1) (nl0.getD i []) (nl1.getD i []) i
+      pure (" ".intercalate (gs.map showM))) rest
+  | "pairs" :: rest => run (do
+      -- number of matched pairs per atom (diagnostic: which atoms the pairing loop reduced)
+      let cosMax ← pRat
+      let c0 ← pCell; let c1 ← pCell; let n ← pNat; let p0 ← pPos n; let p1 ← pPos n
+      let nl0 ← pNlist n; let nl1 ← pNlist n; let sel ← pSel n; pEnd
+      if !(nlistOk n nl0 && nlistOk n nl1) then pure (err "value") else
+      let gs := sel.map fun i =>
+        (matchPQ magR cosMax big (nbrVectors c0 (fn p0) (nl0.getD i []) i) (nbrVectors c1 (fn p1) (nl1.getD i []) i)).length
+      pure (" ".intercalate (gs.map toString))) rest
+  | "derive" :: rest => run (do
+      let g ← pM3; pEnd
+      let s := strain g
+      let r := rotation g
+      pure (showM s ++ " " ++ showM r ++ " " ++
+        showRats [invariant1 s, invariant2 s, invariant3 s, angularVelocitySq r])) rest
+  | "nye" :: rest => run (do
+      let c ← pCell; let n ← pNat; let p ← pPos n; let nl ← pNlist n; let gs ← pMany pM3 n; let sel ← pSel n; pEnd
+      if !nlistOk n nl then pure (err "value") else
+      let G := fnM gs.toArray
+      pure (" ".intercalate (sel.map fun i => showM (nye c (fn p) G (nl.getD i []) i)))) rest
+  | "match" :: rest => run (do
+      -- the pairing loop alone: cosMax np p-vectors nq q-vectors -> matched index of p for each q (-1: none)
+      let cosMax ← pRat; let np ← pNat; let ps ← pMany pV3 np; let nq ← pNat; let qs ← pMany pV3 nq; pEnd
+      let r := qpPairs magR cosMax big ps qs
+      pure (" ".intercalate (r.map fun e => match e.2 with | some k => toString k | none => "-1"))) rest
+  | _ => err "op"
 
 def main : IO Unit := runDriver handleC17
